@@ -183,17 +183,43 @@ def query_grid():
     return [("grid:query", ops)]
 
 
+def pricing_grid():
+    """C07 (and C01/C02): a binding with a time promotion AND a volume promotion in force together, prices and
+    discounts chosen so that the order of multiplication and truncation matters; a repeated context is answered in
+    every batch, so the volume crosses its thresholds while the time window is open, then the window closes."""
+    out = []
+    t0 = 1000000000000
+    for base, dT, dV, v1 in [("5stake", "500000000000000000", "900000000000000000", 1),
+                             ("3stake", "500000000000000000", "500000000000000000", 1),
+                             ("7stake", "900000000000000000", "900000000000000000", 2),
+                             ("30stake", "100000000000000000", "500000000000000000", 1),
+                             ("0.5stake", "500000000000000000", "900000000000000000", 1),
+                             ("5stake", "999999999999999999", "1", 2)]:
+        for win in (3, 6):          # the time window closes after `win` blocks of 5 s
+            ops = [genesis(), f"fund acct={O1} amt=1000000", f"fund acct={C1} amt=100000",
+                   f"define name=svc author={O1} schema=ok",
+                   f"bind svc=svc prov={P1} owner={O1} dep=10000 price={base} promT={t0}:{t0 + win * 5000000000}:{dT} promV={v1}:{dV};{v1 + 2}:{dT} qos=1",
+                   f"call tx={tx(0xC07)} idx=0 svc=svc provs={P1} cons={C1} cap=100 timeout=1 super=0 rep=1 freq=1 total=8 input=ok"]
+            for k in range(1, 9):
+                ops.append("endblock dt=5000000000")
+                ops.append(f"respond req={req_id(0xC07, k, k, 0)} prov={P1} code=200 out=valid")
+            ops += ["endblock dt=5000000000", f"withdraw owner={O1} prov=-"]
+            out.append((f"grid:pricing:{base}:{dT}:{dV}:v{v1}:w{win}", ops))
+    return out
+
+
 GRIDS = {
     "lifecycle": lambda: lifecycle_grid() + lifecycle_grid(T=2, F=2, total=-1, horizon=7),
     "respond": respond_grid,
     "module": module_grid,
     "query": query_grid,
+    "pricing": pricing_grid,
 }
 
 # which grids each property runs
 FOR_PROPERTY = {
-    "C01": ["respond"], "C02": ["respond", "lifecycle"], "C04": ["respond"], "C08": ["respond"],
+    "C01": ["respond", "pricing"], "C02": ["respond", "lifecycle", "pricing"], "C04": ["respond"], "C08": ["respond"],
     "C09": ["lifecycle"], "C10": ["lifecycle"], "C11": ["lifecycle", "respond"], "C12": ["module", "respond"],
-    "C16": ["lifecycle", "respond"], "C06": ["respond"], "C18": ["respond"], "C20": ["lifecycle"],
-    "C17": ["query"],
+    "C16": ["lifecycle", "respond"], "C06": ["respond", "pricing"], "C18": ["respond"], "C20": ["lifecycle"],
+    "C17": ["query"], "C15": ["query"], "C07": ["pricing", "respond"],
 }
